@@ -31,4 +31,7 @@ Definition n_test_f32 (n : nat) (ts : f32) : nat := Z.to_nat (n_test_f32_Z (Z.of
 
 Definition train_test_split_f32 {R T} (x : list R) (y : list T) (ts_bits : Z) (indices : list nat) :=
   let ts := f32_of_bits ts_bits in
-  train_test_split x y (ts_ok_f32 ts) (n_test_f32 (length y) ts) indices.
+  (* the size is only computed after the range test passed (vm_compute is call-by-value, and
+     n * inf saturates to 2^64-1, which must never become a unary `nat`) *)
+  if ts_ok_f32 ts then train_test_split x y true (n_test_f32 (length y) ts) indices
+  else train_test_split x y false 0 indices.
